@@ -97,7 +97,7 @@ UNITS.append(Unit('out.gzip.rotate_output', (G + 'rotate_output', None), contrac
                   ghost=[('unsigned long', 'R0', 'g_rotations')], inline=[(G + 'open', None)], replace=['out.gzip.close'],
                   stubs=['lib_deflate', 'lib_deflateEnd', 'lib_deflateInit2_', 'BaseCborOutputWriter__write', 'BaseCborOutputWriter__rotate_output'],
                   setup=SETUP.replace('__CPROVER_assume(g_z_open && ', '__CPROVER_assume(') + '  __CPROVER_assume((obj.m_gzip.state != 0) == g_z_open && obj.m_gzip.avail_in == 0 && !g_rot_bad);\n  g_lost = 0; g_z_err = 0; static struct any val;\n',
-                  args=['&obj', '&val'], props=['C14', 'C13'], timeout=600,
+                  args=['&obj', '&val'], props=['C14', 'C13', 'C15'], timeout=600,
                   note='close, rotate the inner writer, open: the inner writer is rotated only with a finished stream whose output was forwarded completely; one stream per output'))
 import copy
 _u = copy.copy(UNITS[-1]); _u.id = 'out.gzip.rotate_output.c16'; _u.contract = ROT_C16.replace(', @BINDSX', ''); _u.props = ['C16']
@@ -130,7 +130,7 @@ UNITS.append(Unit('out.file.close', ('@_ZN4CDNS6WriterINSt7__cxx1112basic_string
                   setup='  static struct Writer_str obj;\n  __CPROVER_assume(!g_f_order_bad && !g_f_renamed && obj.m_out.open_ == g_f_open && !g_f_name_bad && NAME_INV_OBJ);\n', args=['&obj'],
                   props=['C15'], timeout=300,
                   note='the .part file is renamed to its final name only after flush and close of the stream, at most once per open, and not at all if no file is open'))
-WS_OPQ = {'std::type_info': 'struct type_info', 'std::basic_ofstream': 'struct ofstream', 'std::basic_ostream': 'struct ofstream', 'std::basic_ios': 'struct ofstream', 'std::ios_base': 'struct ofstream', 'boost::any': 'struct any'}
+WS_OPQ = {'std::_Ios_Openmode': 'int', 'std::ios_base::openmode': 'int', 'std::type_info': 'struct type_info', 'std::basic_ofstream': 'struct ofstream', 'std::basic_ostream': 'struct ofstream', 'std::basic_ios': 'struct ofstream', 'std::ios_base': 'struct ofstream', 'boost::any': 'struct any'}
 WS_ROT = '''
 __CPROVER_requires(__CPROVER_w_ok($this, sizeof(*$this)) && __CPROVER_r_ok($1, sizeof(*$1)) && g_exc == 0 && !g_f_order_bad && !g_f_renamed && $this->m_out.open_ == g_f_open && g_f_nrename == 0 && !g_f_name_bad)
 __CPROVER_requires(''' + NAME_INV + ''')
@@ -202,6 +202,18 @@ UNITS.append(Unit('out.file.ctor', ('@_ZN4CDNS6WriterINSt7__cxx1112basic_stringI
                   setup='  static cstring a_name, a_ext;\n  __CPROVER_assume(!g_f_order_bad && !g_f_open && !g_f_name_bad);\n', args=['&a_name', 'a_ext'],
                   props=['C15', 'C14'], timeout=300, post='  if (g_exc != 0) { CANARY("open failure reachable"); }',
                   note='a new named-file writer keeps the name and the extension it was given and has (<name> + <extension>) + ".part" open'))
+# C15 for an output the OS has rejected bytes of: "the file is given its final name only after every byte has been handed to the operating system"
+WS_C15F = """
+__CPROVER_requires(__CPROVER_w_ok($this, sizeof(*$this)) && g_exc == 0 && !g_f_order_bad && !g_f_renamed && $this->m_out.open_ == g_f_open && !g_f_name_bad)
+__CPROVER_requires(g_f_open && $this->m_out.failed && """ + NAME_INV + """)
+__CPROVER_assigns($this->m_out, g_f_open, g_f_flushed, g_f_renamed, g_f_order_bad, g_f_nrename, g_f_name_bad, g_cc, g_exc)
+__CPROVER_ensures(!g_f_renamed)
+"""
+UNITS.append(Unit('out.file.close.c15', ('@_ZN4CDNS6WriterINSt7__cxx1112basic_stringIcSt11char_traitsIcESaIcEEEE5closeEv', None), contract=WS_C15F, prelude=P, opaque=WS_OPQ,
+                  stubs=['ofstream__\\w+', 'lib_rename', 'cstring__\\w+'],
+                  setup='  static struct Writer_str obj;\n  __CPROVER_assume(!g_f_order_bad && !g_f_renamed && obj.m_out.open_ == g_f_open && !g_f_name_bad && g_f_open && obj.m_out.failed && NAME_INV_OBJ);\n', args=['&obj'],
+                  props=['C15'], timeout=300,
+                  note='a named output whose stream has rejected bytes (failbit) must not be given its final name (known finding: close() never looks at the stream state)'))
 WS_R16 = '''
 __CPROVER_requires(__CPROVER_w_ok($this, sizeof(*$this)) && __CPROVER_r_ok($1, sizeof(*$1)) && g_exc == 0 && !g_f_order_bad && !g_f_renamed && $this->m_out.open_ == g_f_open && g_f_nrename == 0)
 __CPROVER_requires($1->which == 1 && g_f_open && ($this->m_out.failed != 0) == (g_lost != 0))
@@ -219,7 +231,7 @@ TRUSTED_BASE = ['A10 zlib deflate/deflateInit2/deflateEnd per the zlib manual (c
                 'A11 std::ofstream / std::rename / ::write / fstat as ghost event automata with nondeterministic failures; POSIX rename atomicity',
                 'A1 inner writer (virtual BaseCborOutputWriter) accepts p[0..n) in order; boost::any as a tagged union',
                 'VLA stack use is modelled only as the obligation "<= 1 MiB per call"', 'cdns2c lowering; CBMC 6.11 dfcc; cadical']
-ASSUMPTIONS = ['chunks < 2^50 bytes', 'file paths are abstracted (suffix .part/.gz not checked)']
+ASSUMPTIONS = ['chunks < 2^50 bytes', 'file names are uninterpreted concatenations: <name> + <extension> + ".part" is checked, and that the compressing writers pass ".gz" / ".xz" as <extension>; the characters of <name> are not modelled']
 
 # ---------------------------------------------------------------- XZ twins (same contracts, lzma_stream fields)
 def xz(text):
@@ -248,7 +260,7 @@ UNITS.append(Unit('out.xz.rotate_output', (X + 'rotate_output', None), contract=
                   ghost=[('unsigned long', 'R0', 'g_rotations')], inline=[(X + 'open', None)], replace=['out.xz.close'],
                   stubs=['lib_lzma_code', 'lib_lzma_end', 'lib_lzma_easy_encoder', 'BaseCborOutputWriter__write', 'BaseCborOutputWriter__rotate_output'],
                   setup=XSETUP.replace('__CPROVER_assume(g_z_open && ', '__CPROVER_assume(') + '  __CPROVER_assume((obj.m_lzma.internal != 0) == g_z_open && obj.m_lzma.avail_in == 0 && !g_rot_bad);\n  g_lost = 0; g_z_err = 0; static struct any val;\n',
-                  args=['&obj', '&val'], props=['C14', 'C13'], timeout=600, note='as out.gzip.rotate_output'))
+                  args=['&obj', '&val'], props=['C14', 'C13', 'C15'], timeout=600, note='as out.gzip.rotate_output'))
 # destructors: the compressor is finished and released (close) before the members (the inner writer) are destroyed
 DT_C = CL_C
 for tag, pref, opq, fx, stubs, mn in (('gzip', G, OPQ, (lambda t: t), ['lib_deflate', 'lib_deflateEnd', 'BaseCborOutputWriter__write'], '_ZN4CDNS20GzipCborOutputWriterD1Ev'),
